@@ -462,8 +462,17 @@ func (f *Filter) HashMatchAny(key [KeySize]byte, data [][]byte) (bool, error) {
 
 	b := bstream.NewBStreamReader(filterData)
 
+	// Every encoded value occupies at least one bit of the filter data, so
+	// the declared N (which is read from untrusted input) is not a sound
+	// size hint on its own.  The values are kept as full 64-bit keys:
+	// truncating them to 32 bits would report false matches once N*M
+	// exceeds 2^32.
+	sizeHint := uint64(f.N())
+	if maxValues := uint64(len(filterData)) * 8; sizeHint > maxValues {
+		sizeHint = maxValues
+	}
 	var (
-		values    = make(map[uint32]struct{}, f.N())
+		values    = make(map[uint64]struct{}, sizeHint)
 		lastValue uint64
 	)
 
@@ -476,7 +485,7 @@ func (f *Filter) HashMatchAny(key [KeySize]byte, data [][]byte) (bool, error) {
 		value, err := f.readFullUint64(b)
 		if err == nil {
 			lastValue += value
-			values[uint32(lastValue)] = struct{}{}
+			values[lastValue] = struct{}{}
 			continue
 		} else if err == io.EOF {
 			break
@@ -501,7 +510,7 @@ func (f *Filter) HashMatchAny(key [KeySize]byte, data [][]byte) (bool, error) {
 		// of our modulus.
 		v = fastReduction(v, nphi, nplo)
 
-		if _, ok := values[uint32(v)]; !ok {
+		if _, ok := values[v]; !ok {
 			continue
 		}
 
